@@ -39,6 +39,12 @@ def setup():
             v = self.__dict__["_v"]
             if det.S is not None and det.me() is not None and not det.S.aborting and not det.S.quiet:
                 det.S.emit("rc.read", "A", v)
+                import sys as _sys
+                lk = getattr(self, "lock", None)
+                if _sys._getframe(1).f_code.co_name in ("incr", "decr") and not (lk is not None and getattr(lk, "owner", None) is det.me()):
+                    # `self.value += 1` is a read and a write: outside the counter's own lock the update can be preempted
+                    # in between (never the case in the unchanged code, where incr / decr hold the lock)
+                    det.switch("rc.rmw")
             return v
 
         @value.setter
@@ -154,7 +160,8 @@ def execute(p, chooser):
             det.S.name(ex._lock, "X")
             det.S.name(ex._shutdown._lock, "G")
             det.S.name(ex._event, "E")
-            det.S.name(ex._running_count.lock, "A")
+            if getattr(ex._running_count, "lock", None) is not None:
+                det.S.name(ex._running_count.lock, "A")
             ex._to_submit = DequeV()
             obs["init_last"] = ex._last_throttle
         lt = ex._last_throttle
